@@ -481,7 +481,7 @@ def probe_state(sc, d, snap, wl, label, earlier_rows, probes=("P1", "P1b", "P2",
     return vio, ",".join(oc)
 
 
-def record(sc, d, wl):
+def record(sc, d, wl, order=None):
     """-> (pre snapshot, mutation log, final snapshot, earlier rows)"""
     build_pre(sc, d, wl)
     pre = fsseam.snapshot(d)
@@ -494,7 +494,7 @@ def record(sc, d, wl):
     earlier_rows = []
     if sc.kind == "sampler" and sc.earlier:
         earlier_rows = sc.load_data(d)
-    with fsseam.Seam(d, detect_opaque=True) as seam:
+    with fsseam.Seam(d, detect_opaque=True, list_order=order) as seam:
         action(sc, d, wl)
     final = fsseam.snapshot(d)
     # seam completeness: the log must reproduce the final tree byte for byte
@@ -513,11 +513,24 @@ def run_workload(task):
     sc = Scn(name)
     d = os.path.join(core.scratch_root(), "c10.results[1].xyz-batch-1")
     builtins._xv_draw_a = builtins._xv_draw_b = 0
-    pre, log, final, earlier_rows = record(sc, d, wl)
+    # the order in which a directory hands out its entries (it decides the
+    # order in which a crop's files are deleted) is the file system's
+    # choice: the deleting workload is recorded under both name orders
+    orders = ["asc", "desc"] if wl == "reap" else [None]
+    states, seen_h, nops = [], set(), 0
+    for order in orders:
+        builtins._xv_draw_a = builtins._xv_draw_b = 0
+        pre, log, final, earlier_rows = record(sc, d, wl, order)
+        nops += len(log)
+        for label, snap in crash.crash_states(pre, log, level):
+            h = fsseam.snap_hash(snap)
+            if h in seen_h:
+                continue
+            seen_h.add(h)
+            states.append((label + ("@" + order if order else ""), snap))
     hpre, hfin = fsseam.snap_hash(pre), fsseam.snap_hash(final)
-    out = {"task": [name, wl], "nops": len(log), "states": 0, "nontrivial": [],
+    out = {"task": [name, wl], "nops": nops, "states": 0, "nontrivial": [],
            "outcomes": {}, "violations": [], "p4_states": 0, "samples": []}
-    states = list(crash.crash_states(pre, log, level))
     for label, snap in states:
         h = fsseam.snap_hash(snap)
         probes = ("P1", "P1b", "P2", "P3")
@@ -666,11 +679,13 @@ def replay(case):
     sc = Scn(case["scenario"])
     d = os.path.join(core.scratch_root(), "c10.results[1].xyz-batch-1")
     builtins._xv_draw_a = builtins._xv_draw_b = 0
-    pre, log, final, earlier_rows = record(sc, d, case["workload"])
+    order = case["label"].split("@")[1] if "@" in case["label"] else None
+    pre, log, final, earlier_rows = record(sc, d, case["workload"], order)
     vio = []
     for label, snap in crash.crash_states(pre, log, case.get("level", "quick")):
-        if label != case["label"]:
+        if label + ("@" + order if order else "") != case["label"]:
             continue
+        label = case["label"]
         if case.get("second"):
             fsseam.restore(d, snap)
             with fsseam.Seam(d, detect_opaque=True) as seam2:
